@@ -65,6 +65,39 @@ for _f in ('http', 'json', 'soap11', 'xml'):
         _mk(_f, _ch)
 
 
+def _mk_closing(family):
+    @obligation('C13.closing_listener_fails.%s' % family, targets=['spyne.server.wsgi:_FinalizingIterable.close',
+                                                                  'spyne.server.wsgi:WsgiApplication.__finalize',
+                                                                  'spyne.context:MethodContext.close'],
+                desc="a listener of wsgi_close / method_context_closed that raises while the response is being finalised "
+                     "does not make the context close twice: the server's mandatory close() after a failed or completed "
+                     "iteration finds the response already finalised; start_response once, bytes chunks as usual",
+                assumptions=ASSUME[:1] + ["logging calls have no effect"])
+    def ob(c):
+        kind = c.choose(['valid', 'unknown_method'] if 'unknown_method' in requests_for(family) else ['valid'], 'request_kind')
+        failing = c.choose([('transport', 'wsgi_close', 'other'), ('app', 'method_context_closed', 'other'),
+                            ('service', 'method_context_closed', 'fault')], 'failing_listener')
+        chunked = c.choose([True, False], 'chunked')
+        abort = c.choose([None, 1], 'client_abort_after') if kind == 'valid' else None
+        h = Harness(c, family, chunked=chunked, failing=failing)
+        out = h.run_wsgi(kind, abort_after=abort)
+        tr = c.trace
+        c.check('callable_returns', out.returned, detail=repr(out))
+        sr = [t for t in tr if t[0] == 'start_response']
+        c.check('start_response_exactly_once', len(sr) == 1, detail=len(sr))
+        chunks = [t[1] for t in tr if t[0] == 'chunk']
+        c.check('chunks_are_bytes', all(isinstance(x, bytes) for x in chunks), detail=[type(x).__name__ for x in chunks])
+        closed = [t for t in tr if t[:3] == ('event', 'app', 'method_context_closed')]
+        c.check('context_closed_exactly_once', len(closed) == 1, detail=(len(closed), [t[:3] for t in tr if t[0] == 'event'][-8:]))
+        wc = [t for t in tr if t[:3] == ('event', 'transport', 'wsgi_close')]
+        c.check('wsgi_close_fired_at_most_once', len(wc) <= 1, detail=len(wc))
+    return ob
+
+
+for _f in ('http', 'json', 'soap11'):
+    _mk_closing(_f)
+
+
 class CountingInput(object):
     def __init__(self, c, body):
         import io
@@ -163,3 +196,43 @@ def wsdl(c):
     sri = [i for i, t in enumerate(tr) if t[0] == 'start_response']
     if closed and sri:
         c.check('context_closed_after_start_response', closed[0] > sri[0])
+
+
+@obligation('C13.limits.constructor', targets=['spyne.server.http:HttpBase.__init__', 'spyne.server.wsgi:WsgiApplication.__init__'],
+            desc="for every max_content_length >= 0 and block_length > 0 given to the transport's constructor (keyword or "
+                 "positional) the transport works with exactly those values -- in particular 0 means 0, not a default; "
+                 "without arguments the documented defaults (2 MiB, 8 KiB) apply")
+def limits_constructor(c):
+    from pyvc.sym import And
+    from spyne import Application, ServiceBase, rpc
+    from spyne.model.primitive import Integer
+    from spyne.protocol.json import JsonDocument
+    from spyne.server.wsgi import WsgiApplication
+    from .pipeline import TNS
+
+    class LSvc(ServiceBase):
+        @rpc(Integer, _returns=Integer)
+        def m(ctx, i):
+            return i
+    app = Application([LSvc], TNS, name='LApp', in_protocol=JsonDocument(), out_protocol=JsonDocument())
+    how = c.choose(['keywords', 'positional', 'defaults', 'only_limit', 'only_block'], 'call_form')
+    L, B = c.int('max_content_length'), c.int('block_length')
+    c.assume(And(L >= 0, B > 0))
+    if how == 'keywords':
+        out = c.run(WsgiApplication, app, max_content_length=L, block_length=B)
+    elif how == 'positional':
+        out = c.run(WsgiApplication, app, False, L, B)
+    elif how == 'only_limit':
+        out = c.run(WsgiApplication, app, max_content_length=L)
+    elif how == 'only_block':
+        out = c.run(WsgiApplication, app, block_length=B)
+    else:
+        out = c.run(WsgiApplication, app)
+    c.check('constructs', out.returned, detail=repr(out))
+    if not out.returned:
+        return
+    w = out.value
+    want_l = L if how in ('keywords', 'positional', 'only_limit') else 2 * 1024 * 1024
+    want_b = B if how in ('keywords', 'positional', 'only_block') else 8 * 1024
+    c.check('max_content_length_as_given', w.max_content_length == want_l, detail=repr(w.max_content_length))
+    c.check('block_length_as_given', w.block_length == want_b, detail=repr(w.block_length))
